@@ -37,6 +37,7 @@ type fakeSession struct {
 	getty.Session // nil: a method the code under test is not expected to call panics (observable)
 	name          string
 	closed        atomic.Bool
+	wire          atomic.Bool // frames take the way of the real writer: encode, (later) hand the SAME slice to the socket, decode there
 	w             *world
 }
 
@@ -53,6 +54,27 @@ func (s *fakeSession) WritePkg(pkg interface{}, _ time.Duration) (int, int, erro
 	m, ok := pkg.(message.RpcMessage)
 	if !ok {
 		return 0, 0, fmt.Errorf("fake session: not an RpcMessage: %T", pkg)
+	}
+	if s.wire.Load() {
+		// what getty's session.WritePkg does: writer.Write(pkg) yields the frame, Connection.Send takes
+		// that very slice afterwards (other goroutines encode their frames in between); the
+		// coordinator decodes what the socket took
+		h := &sgetty.RpcPackageHandler{}
+		frame, err := h.Write(s, m)
+		if err != nil {
+			return 0, 0, err
+		}
+		time.Sleep(time.Duration(uint32(m.ID)%5) * 300 * time.Microsecond)
+		onWire := append([]byte(nil), frame...)
+		dec, n, derr := h.Read(s, onWire)
+		dm, isMsg := dec.(message.RpcMessage)
+		if derr != nil || !isMsg || n != len(onWire) {
+			s.w.mu.Lock()
+			s.w.wireErrs = append(s.w.wireErrs, fmt.Sprintf("the frame written for message id %d (%d bytes) does not decode at the coordinator: consumed %d, err %v", m.ID, len(onWire), n, derr))
+			s.w.mu.Unlock()
+			return len(onWire), len(onWire), nil
+		}
+		m = dm
 	}
 	return s.w.onWrite(s, m)
 }
@@ -84,6 +106,7 @@ type world struct {
 	all      []wrec
 	hook     func(wrec)            // conc mode: called (outside the lock) on every successful write
 	early    map[string]func(wrec) // seq mode: reply delivered before WritePkg returns to the caller
+	wireErrs []string              // wire mode: frames the coordinator side could not decode
 }
 
 func newWorld() *world {
